@@ -1,5 +1,8 @@
 import Driver.HMsgpack
 import CtyModel.d17Msgpack
+import CtyModel.d17JsonDepth
+import CtyModel.Generated.Limits
+import Driver.HJsonVal
 open CtyModel
 open CtyModel.Msgpack
 
@@ -9,6 +12,7 @@ open CtyModel.Msgpack
 * `d17.unmarshal <item> <ty>` → `ok <value>` | `err` | `panic` | `unmodelled`
 * `d17.allocfit <item> <ty> <bytes> <measured alloc> <ok 0|1>` → `fit` iff `wireSize item ≤ (1 + extDepth item)·bytes` and (when the real
   decoder returned a value) `allocCost ≤ measured alloc`; else the two numbers
+* `d17.jsonimplied <tbl> <json>` → `json.ImpliedType` with the nesting limit of the source (`Generated.jsonMaxImpliedTypeDepth`)
 * `d17.alloc <item> <ty>` → `<slots> <wireSize>`: element slots requested by the `make(` calls of the decoder on the
   way through the document, and the model's lower bound of the document's size in bytes -/
 
@@ -23,6 +27,10 @@ def handleD17 : Handler := fun op args =>
     let it ← itemOfSexp it
     let t ← Ty.ofSexp t
     pure (toString (D17.allocCost D17.allocHint (extOf []) it t.stripOpt) ++ " " ++ toString (D17.wireSize it))
+  | "d17.jsonimplied", [tbl, j] => do
+    let env ← decEnv tbl
+    let j ← Json.ofSexp j
+    pure (resTag (fun t => toString t.toSexp) (D17.jsonImpliedTop env Generated.jsonMaxImpliedTypeDepth j))
   | "d17.allocfit", [it, t, n, a, .atom ok] => do
     let it ← itemOfSexp it
     let t ← Ty.ofSexp t
